@@ -20,7 +20,11 @@ RULE = ("generated ODX documents (1-4 layers incl. inheritance: chains and layer
         "distinct or shared constant prefixes given by "
         "CODED-CONST and/or PHYS-CONST parameters, 1-4 request parameters, VALUE parameters typed by simple DOPs or by STRUCTUREs of static "
         "size, 0-2 positive and 0-1 negative responses, 0-5 COMPARAM-REFs per layer "
-        "with or without PROTOCOL-SNREF) loaded through the XML parser; every single edit add / delete / "
+        "with or without PROTOCOL-SNREF; the short names of layers, services, parameters, DOPs / STRUCTUREs, units and comparams are the "
+        "generator's plain ones or, in half of the documents and in an enumerated family name space x name class, drawn from 13 classes of "
+        "legal short names [a-zA-Z0-9_]{1,128}: first character a digit, only digits, python keywords, soft keywords / builtins, attribute "
+        "names of list / NamedItemList, leading underscores, mangled / numbered / case twins, one character, 128 characters, prefix chains) "
+        "loaded through the XML parser; every single edit add / delete / "
         "rename of every service and every applicable attribute edit (byte position, bit length -- incl. the size of the STRUCTURE typing a "
         "parameter --, coded value, semantic, data type, linked DOP / STRUCTURE) of (a sample of) the parameters, observed in the edited layer "
         "and in every inheriting layer (which must report the edit, or nothing when it does not inherit the edited service); plus structural edits (parameter/response added or removed, DOP changed, two edits at "
@@ -134,7 +138,9 @@ LEGAL_PARENTS = {"ECU-SHARED-DATA": (), "FUNCTIONAL-GROUP": ("ECU-SHARED-DATA",)
                  "ECU-VARIANT": ("ECU-SHARED-DATA", "FUNCTIONAL-GROUP", "BASE-VARIANT")}
 
 
-def gen_spec(rng, big=False):
+def gen_spec(rng, big=False, shape=None, nsvc_first=None, distinct=False):
+    """shape / nsvc_first / distinct: fixed shape, number of services of the first layer, pairwise distinct leading constants
+    (the enumerated small-scope families want every add / delete / rename inside the envelope)"""
     ndops = rng.randint(2, 4)
     units = [{"name": "km", "display": "km"}, {"name": "mph", "display": rng.choice(["mph", "km"])}][:rng.randint(0, 2)]
     dops = []
@@ -146,8 +152,11 @@ def gen_spec(rng, big=False):
     sdops = [gen_struct(rng, f"r{i}", dops) for i in range(rng.choice([0, 0, 1, 2, 3]))]
     cps = [f"CP_{c}" for c in "abc"][:rng.randint(0, 3)]
     # a trailing * = every later layer draws its PARENT-REFs (mostly two or more) among the earlier layers; otherwise a chain
-    shape = rng.choice(["bv", "bv", "bv+ev", "esd+bv", "fg+bv+ev", "fg+bv+ev*", "esd+fg+bv*", "esd+fg+bv+ev*"] if big else
-                       ["bv", "bv", "bv", "bv+ev", "esd+bv", "fg+bv+ev", "fg+bv+ev*", "esd+fg+bv*", "esd+fg+bv+ev*"])
+    shape = shape or rng.choice(["bv", "bv", "bv+ev", "esd+bv", "fg+bv+ev", "fg+bv+ev*", "esd+fg+bv*", "esd+fg+bv+ev*"] if big else
+                                ["bv", "bv", "bv", "bv+ev", "esd+bv", "fg+bv+ev", "fg+bv+ev*", "esd+fg+bv*", "esd+fg+bv+ev*"])
+    free_vals = list(VALS)
+    if distinct:
+        rng.shuffle(free_vals)
     multi = shape.endswith("*")
     layers = []
     spec = {"dops": dops, "sdops": sdops, "units": units, "comparams": cps, "layers": layers}
@@ -155,18 +164,20 @@ def gen_spec(rng, big=False):
     prev = None
     for tag in shape.rstrip("*").split("+"):
         ln = tag.upper()
-        nsvc = rng.randint(1, 5) if prev is None else rng.randint(0, 2)
+        nsvc = (nsvc_first or rng.randint(1, 5)) if prev is None else rng.randint(0, 2)
         svcs = []
         # how the requests of this layer are identified: by a CODED-CONST, by a PHYS-CONST (value given through a DOP), or either
         sidkind = rng.choice(["const", "const", "const", "phys", "mixed"])
         for k in range(nsvc):
             r = rng.random()
-            if r < .12:
+            if distinct and not free_vals:
+                break
+            if r < .12 and not distinct:
                 prefix = []                                   # no constant prefix (b"")
-            elif r < .35 and svcs and lead_of(svcs[-1]) is not None:
+            elif r < .35 and svcs and lead_of(svcs[-1]) is not None and not distinct:
                 prefix = [lead_of(svcs[-1])]                  # shared with the previous service
             else:
-                v = rng.choice(VALS)
+                v = free_vals.pop() if distinct else rng.choice(VALS)
                 if sidkind == "phys" or (sidkind == "mixed" and rng.random() < .5):
                     prefix = [["pc", v, rng.choice(dops)["name"]]]
                 else:
@@ -501,11 +512,40 @@ def flush(ctx, pend):
 
 
 # ------------------------------------------------------------------ edits
-def fresh_service(rng, spec, L_, shared):
-    names = {s["name"] for l in spec["layers"] for s in l["services"]}
+def svc_name_class(spec):
+    """the name class the document's service names were drawn from (None: the generator's plain <LAYER>_S<k>)"""
+    return (spec.get("naming") or {}).get("services")
+
+
+def new_service_name(rng, spec, L_, cls=None):
+    """short name of a service to be added: unused in the whole document; of the document's service-name class (or `cls`) and,
+    for the relational classes, related to a name the layer already uses"""
+    names = L.all_names(spec, "services")
+    cls = cls or svc_name_class(spec)
+    if cls:
+        return L.fresh_name(rng, cls, names, near={s["name"] for s in L_["services"]})
+    base = L_["name"] if not (spec.get("naming") or {}).get("layers") else "Lyr"
     k = 0
-    while f"{L_['name']}_N{k}" in names:
+    while f"{base}_N{k}" in names:
         k += 1
+    return f"{base}_N{k}"
+
+
+def rename_target(rng, spec, L_, name, cls=None):
+    """the new short name of a renamed service: name_R in plain documents; otherwise a name of the document's class or of any
+    other class, half of the time related to the old name itself (its mangled / numbered / case twin, an extension of it)"""
+    if cls is None and not svc_name_class(spec):
+        return name + "_R"
+    names = L.all_names(spec, "services")
+    c2 = cls or (svc_name_class(spec) if rng.random() < .5 else rng.choice(L.NAME_CLASSES))
+    if c2 == "mixed":
+        c2 = rng.choice(L.NAME_CLASSES)
+    near = {name} if rng.random() < .5 else {s["name"] for s in L_["services"]}
+    return L.fresh_name(rng, c2, names, near=near)
+
+
+def fresh_service(rng, spec, L_, shared, cls=None):
+    name = new_service_name(rng, spec, L_, cls)
     leads = [x for x in (lead_of(s) for s in L_["services"]) if x is not None]
     if shared and leads:
         prefix = [rng.choice(leads)]
@@ -515,18 +555,26 @@ def fresh_service(rng, spec, L_, shared):
         pcs = [x for x in leads if not isinstance(x, int)]
         # in a layer whose requests are identified by PHYS-CONSTs the new service mostly is, too
         prefix = [["pc", v, rng.choice(pcs)[2]]] if pcs and rng.random() < .7 else [v]
-    return gen_service(rng, f"{L_['name']}_N{k}", spec["dops"], prefix, spec.get("sdops") or ())
+    svc = gen_service(rng, name, spec["dops"], prefix, spec.get("sdops") or ())
+    pcls = (spec.get("naming") or {}).get("params")
+    if pcls:
+        # the parameters of the new service are named like those of the rest of the document
+        for ps in [svc["req"]] + svc["pos"] + svc["neg"]:
+            for p, nm in zip(ps, L.draw_names(rng, pcls, len(ps))):
+                p["name"] = nm
+    return svc
 
 
-def all_edits(rng, spec, lname, max_attr):
-    """yield (edit description, new spec) for layer `lname`"""
+def all_edits(rng, spec, lname, max_attr, every_class=False):
+    """yield (edit description, new spec) for layer `lname`; every_class: additionally a service of every name class is added,
+    and the services are renamed to a name of every name class (service k takes the classes k, k+n, ...)"""
     li = next(i for i, l in enumerate(spec["layers"]) if l["name"] == lname)
     L_ = spec["layers"][li]
     n = len(L_["services"])
     # add (fresh prefix, and shared prefix), at a random position
-    for shared in (False, True):
+    for shared, cls in [(False, None), (True, None)] + ([(False, c) for c in L.NAME_CLASSES] if every_class else []):
         s2 = copy.deepcopy(spec)
-        svc = fresh_service(rng, spec, L_, shared)
+        svc = fresh_service(rng, spec, L_, shared, cls)
         s2["layers"][li]["services"].insert(rng.randint(0, n), svc)
         yield {"kind": "add", "service": svc["name"], "shared": shared}, s2
     for k in range(n):
@@ -534,9 +582,11 @@ def all_edits(rng, spec, lname, max_attr):
         s2 = copy.deepcopy(spec)
         s2["layers"][li]["services"].pop(k)
         yield {"kind": "delete", "service": name}, s2
-        s2 = copy.deepcopy(spec)
-        s2["layers"][li]["services"][k]["name"] = name + "_R"
-        yield {"kind": "rename", "service": name, "new_name": name + "_R"}, s2
+        for cls in [None] + ([c for i, c in enumerate(L.NAME_CLASSES) if i % n == k] if every_class else []):
+            s2 = copy.deepcopy(spec)
+            new_name = rename_target(rng, spec, L_, name, cls)
+            s2["layers"][li]["services"][k]["name"] = new_name
+            yield {"kind": "rename", "service": name, "new_name": new_name}, s2
     attr_cases = [(k, loc, attr) for k in range(n) for loc in L.locs(L_["services"][k]) for attr in L.ATTR_EDITS]
     rng.shuffle(attr_cases)
     # the sample always contains some edits of parameters typed by a STRUCTURE (size changed / re-linked), when there are any
@@ -590,7 +640,7 @@ def structural_edits(rng, spec, lname):
         yield {"kind": "struct", "what": "unit-display"}, s3
     # two edits at once: rename + parameter change; rename + name swap
     s2 = copy.deepcopy(spec)
-    s2["layers"][li]["services"][k]["name"] += "_R"
+    s2["layers"][li]["services"][k]["name"] = rename_target(rng, spec, L_, L_["services"][k]["name"])
     if s2["layers"][li]["services"][k]["req"]:
         s2["layers"][li]["services"][k]["req"][-1]["sem"] = "ZZ"
     yield {"kind": "struct", "what": "rename+param"}, s2
@@ -598,13 +648,13 @@ def structural_edits(rng, spec, lname):
         s2 = copy.deepcopy(spec)
         a, b = s2["layers"][li]["services"][0], s2["layers"][li]["services"][1]
         a["name"], b["name"] = b["name"], a["name"]
-        yield {"kind": "struct", "what": "names-swapped"}, s2
+        yield {"kind": "struct", "what": "names-swapped", "both_directions": True}, s2
         s2 = copy.deepcopy(spec)
         s2["layers"][li]["services"][1]["name"] = s2["layers"][li]["services"][0]["name"]     # duplicate short name
-        yield {"kind": "struct", "what": "duplicate-name"}, s2
+        yield {"kind": "struct", "what": "duplicate-name", "both_directions": True}, s2
     s2 = copy.deepcopy(spec)
     s2["layers"][li]["services"] = []
-    yield {"kind": "struct", "what": "all-deleted"}, s2
+    yield {"kind": "struct", "what": "all-deleted", "both_directions": True}, s2
 
 
 # ------------------------------------------------------------------ corpus: the defects of the pinned commit
@@ -650,58 +700,120 @@ def run(ctx):
         ctx.violate("reports-exactly-the-edit", ["corpus", "raises"], f"foreign:{type(e).__name__}", {"edit": {"kind": "corpus"}}, "corpus case raised")
     n_specs = 800 if big else 100
     max_attr = 40 if big else 14
+    names_family(ctx, pend, big)
     for n in range(n_specs):
         spec = gen_spec(rng, big)
-        try:
-            db = L.load(spec)
-        except Exception as e:  # generator produced an unloadable document
-            ctx.count(f"unloadable-spec:{type(e).__name__}")
-            continue
-        ctx.histo("shape", "+".join(l["kind"] for l in spec["layers"]))
-        ctx.histo("max_parent_refs_of_a_layer", max(len(L.parent_refs(l)) for l in spec["layers"]))
-        ctx.histo("not_inherited_names_offered_by_another_parent", min(shadowed_exclusions(spec), 3))
-        ctx.histo("structures_typing_parameters", sum(1 for sd in spec.get("sdops", []) if L.users_of(spec, sd["name"])))
-        metrics_case(ctx, pend, spec, db)
-        # self comparison of every layer and of the database
-        for dl in db.diag_layers:
-            run_case(ctx, pend, "self", spec, spec, dl.short_name, {"kind": "self"}, db)
-        run_db_case(ctx, pend, spec, spec, None, db, db, {})
-        for L_ in spec["layers"]:
-            if not L_["services"]:
-                continue
-            lname = L_["name"]
-            leads = {("none" if x is None else "coded-const" if isinstance(x, int) else "phys-const") for x in map(lead_of, L_["services"])}
-            ctx.histo("request_ids_of_layer", "+".join(sorted(leads)))
-            children = [x["name"] for x in spec["layers"] if reaches(spec["layers"], x, lname)]
-            for k, (edit, s2) in enumerate(all_edits(rng, spec, lname, max_attr)):
-                cls0 = seen_as(edit, spec, s2, lname, lname)
-                ctx.histo("edit_seen_in_own_layer", cls0)
-                db_new = run_case(ctx, pend, edit["kind"], spec, s2, lname, as_seen(edit, cls0), db, oracle=cls0 != "mixed")
-                if db_new is None:
-                    continue
-                # layers inheriting from the edited one see the same single edit -- unless they do not inherit the edited service
-                for c in children:
-                    cls = seen_as(edit, spec, s2, c, lname)
-                    ctx.histo("edit_seen_in_inheriting_layer", cls)
-                    run_case(ctx, pend, "inherited", spec, s2, c, as_seen(edit, cls), db, oracle=cls != "mixed", db_new=db_new)
-                if k % 4 == 0 or big:
-                    exp, _ = (None, None)
-                    try:
-                        dl_old = next(d for d in db.diag_layers if d.short_name == lname)
-                        dl_new = next(d for d in db_new.diag_layers if d.short_name == lname)
-                        if cls0 != "mixed":
-                            exp, _ = expectation(as_seen(edit, cls0), dl_new, dl_old, s2, spec, lname)
-                    except Exception:  # noqa
-                        exp = None
-                    lay = None
-                    if exp is not None and not children:
-                        lay = {lname: exp}
-                    run_db_case(ctx, pend, spec, s2, lname, db, db_new, lay)
-            for edit, s2 in structural_edits(rng, spec, lname):
-                run_case(ctx, pend, "structural", spec, s2, lname, edit, db, oracle=False)
+        if rng.random() < .5:
+            # half of the documents: some / all of the name spaces use other legal short names than the generator's plain ones
+            spec = L.rename_spec(spec, rng, draw_naming(rng))
+        explore_spec(ctx, pend, rng, spec, max_attr, 1 if big else 4)
         if len(pend.items) > 4000:
             flush(ctx, pend)
     flush(ctx, pend)
+
+
+def draw_naming(rng):
+    """which name spaces of a document get names of which class (a name space not mentioned keeps the generator's names)"""
+    naming = {}
+    for kind in L.NAME_KINDS:
+        r = rng.random()
+        if r < .4:
+            continue
+        naming[kind] = "mixed" if r < .6 else rng.choice(L.NAME_CLASSES)
+    return naming
+
+
+def names_family(ctx, pend, big):
+    """enumerated small scope: every name space (services, layers, parameters, DOPs + structures + units) x every class of legal
+    short names (+ mixed).  One small document each (all leading constants distinct, so add / delete / rename are inside the
+    envelope): overview, self comparison, every add / delete / rename, a sample of the attribute edits, each also through
+    compare_databases; for service names additionally a service of every class is added and the services are renamed to names
+    of every class (all ordered pairs old class -> new class)."""
+    for kind in ("services", "layers", "params", "dops"):
+        for cls in L.NAME_CLASSES + ("mixed",):
+            for rep in range(2 if big else 1):
+                rng = ctx.sub_rng("names", kind, cls, rep)
+                base = gen_spec(rng, big, shape=("bv+ev" if kind == "layers" or rep else "bv"), nsvc_first=3, distinct=True)
+                naming = {kind: cls}
+                if kind == "dops":
+                    naming["units"] = cls
+                    naming["comparams"] = cls
+                spec = L.rename_spec(base, rng, naming)
+                ctx.histo("names_family", f"{kind}:{cls}")
+                explore_spec(ctx, pend, rng, spec, 12 if big else (8 if kind == "services" else 6), 1, structural=big,
+                             every_class=kind == "services")
+    flush(ctx, pend)
+
+
+def explore_spec(ctx, pend, rng, spec, max_attr, db_every, structural=True, every_class=False):
+    """one document: overview, self comparison, all single edits of every layer (observed in the layer, in the inheriting layers and,
+    every `db_every`-th, through compare_databases), structural edits"""
+    big = ctx.tier == "thorough"
+    try:
+        db = L.load(spec)
+    except Exception as e:  # generator produced an unloadable document
+        ctx.count(f"unloadable-spec:{type(e).__name__}")
+        return
+    ctx.histo("shape", "+".join(l["kind"] for l in spec["layers"]))
+    ctx.histo("max_parent_refs_of_a_layer", max(len(L.parent_refs(l)) for l in spec["layers"]))
+    ctx.histo("not_inherited_names_offered_by_another_parent", min(shadowed_exclusions(spec), 3))
+    ctx.histo("structures_typing_parameters", sum(1 for sd in spec.get("sdops", []) if L.users_of(spec, sd["name"])))
+    for kind in L.NAME_KINDS:
+        ctx.histo("naming_of_document", f"{kind}:{(spec.get('naming') or {}).get(kind, 'generator')}")
+    metrics_case(ctx, pend, spec, db)
+    # self comparison of every layer and of the database
+    for dl in db.diag_layers:
+        run_case(ctx, pend, "self", spec, spec, dl.short_name, {"kind": "self"}, db)
+    run_db_case(ctx, pend, spec, spec, None, db, db, {})
+    for L_ in spec["layers"]:
+        if not L_["services"]:
+            continue
+        lname = L_["name"]
+        leads = {("none" if x is None else "coded-const" if isinstance(x, int) else "phys-const") for x in map(lead_of, L_["services"])}
+        ctx.histo("request_ids_of_layer", "+".join(sorted(leads)))
+        children = [x["name"] for x in spec["layers"] if reaches(spec["layers"], x, lname)]
+        for k, (edit, s2) in enumerate(all_edits(rng, spec, lname, max_attr, every_class)):
+            cls0 = seen_as(edit, spec, s2, lname, lname)
+            ctx.histo("edit_seen_in_own_layer", cls0)
+            if edit.get("service") is not None:
+                ctx.histo("name_class_of_edited_service", L.name_class_of(edit["service"]))
+            if edit["kind"] == "rename":
+                ctx.histo("rename_name_classes", f"{L.name_class_of(edit['service'])}->{L.name_class_of(edit['new_name'])}")
+            db_new = run_case(ctx, pend, edit["kind"], spec, s2, lname, as_seen(edit, cls0), db, oracle=cls0 != "mixed")
+            if db_new is None:
+                continue
+            # layers inheriting from the edited one see the same single edit -- unless they do not inherit the edited service
+            for c in children:
+                cls = seen_as(edit, spec, s2, c, lname)
+                ctx.histo("edit_seen_in_inheriting_layer", cls)
+                run_case(ctx, pend, "inherited", spec, s2, c, as_seen(edit, cls), db, oracle=cls != "mixed", db_new=db_new)
+            if k % db_every == 0 or big:
+                # what compare_databases must report: the edit for the edited layer, what each inheriting layer sees of it (the
+                # edit again, or nothing), nothing for all other layers; no claim when one of them is outside the envelope
+                lay = None
+                try:
+                    if cls0 != "mixed":
+                        lay = {}
+                        for c in [lname] + children:
+                            cls = cls0 if c == lname else seen_as(edit, spec, s2, c, lname)
+                            dl_old = next(d for d in db.diag_layers if d.short_name == c)
+                            dl_new = next(d for d in db_new.diag_layers if d.short_name == c)
+                            exp = None if cls == "mixed" else expectation(as_seen(edit, cls), dl_new, dl_old, s2, spec, c)[0]
+                            if exp is None:
+                                lay = None
+                                break
+                            lay[c] = exp
+                except Exception:  # noqa
+                    lay = None
+                ctx.count("db-oracle-checked" if lay is not None else "db-correspondence-only")
+                run_db_case(ctx, pend, spec, s2, lname, db, db_new, lay)
+        if structural:
+            for edit, s2 in structural_edits(rng, spec, lname):
+                db_new = run_case(ctx, pend, "structural", spec, s2, lname, edit, db, oracle=False)
+                if db_new is not None and edit.get("both_directions"):
+                    # the same two layers with the roles old / new exchanged (correspondence only)
+                    run_case(ctx, pend, "structural", s2, spec, lname, {"kind": "struct", "what": edit["what"] + "(reversed)"}, db_new,
+                             oracle=False, db_new=db)
 
 
 def replay(ctx, data):
